@@ -98,6 +98,46 @@ def run(ctx):
             dec = cirq.decompose_once(gate(*cirq.LineQubit.range(nq)), default=None)
             if dec is not None:
                 num('fermionic_simulation_decomposition', np.allclose(cirq.unitary(cirq.Circuit(dec)) if nq == len(cirq.Circuit(dec).all_qubits()) else cirq.Circuit(dec).unitary(qubit_order=cirq.LineQubit.range(nq)), U, atol=1e-8), 'decomposition differs from the gate', rp, key=('d', cls.__name__, repr(w), ex))
+    # ---- fermionic_simulation_gates_from_interaction_operator: G_I = exp(i H_I), H_I = the terms of H on exactly the modes I
+    #      (tensors symmetrised, normal-ordered, or holding a coefficient in one of several equivalent slots)
+    from .c04 import rand_hermitian_iop
+    for it in range(N(20, 120)):
+        n = rng.choice([2, 3, 4]); const, one, two = rand_hermitian_iop(rng, n)
+        if it % 3 == 0:
+            # density-density terms stored in one slot only (upper / lower triangular V n_p n_q as a+_p a+_q a_q a_p)
+            two = np.zeros((n,) * 4, dtype=complex)
+            for p_ in range(n):
+                for q_ in range(p_ + 1, n):
+                    v = float(rs.randn()); (pp, qq) = (p_, q_) if it % 2 else (q_, p_); two[pp, qq, qq, pp] += v
+        iop = of.InteractionOperator(float(const), one, two)
+        Hf = of.normal_ordered(of.get_fermion_operator(iop))
+        rp = {'call': 'fermionic_simulation_gates_from_interaction_operator', 'n': n, 'one_body': repr(one.tolist()), 'two_body_nonzero': {repr(k_): repr(two[k_]) for k_ in zip(*np.nonzero(two))}}
+        try: gates = fs.fermionic_simulation_gates_from_interaction_operator(iop)
+        except Exception as e:
+            ctx.violation('C14 fermionic_simulation_gates_from_interaction_operator raised %s: %s' % (type(e).__name__, e), rp); continue
+        groups = {}
+        for t, c in Hf.terms.items(): groups.setdefault(tuple(sorted(set(j for j, _ in t))), {})[t] = c
+        okk = True; why = ''
+        for I, terms_I in groups.items():
+            if len(I) == 0:
+                if abs(complex(gates.get((), 0.0)) - complex(terms_I.get((), 0.0))) > 1e-9: okk = False; why = 'constant'
+                continue
+            relab = {m: k_ for k_, m in enumerate(I)}
+            HI = fermion_matrix(len(I), {tuple((relab[j], a) for j, a in t): c for t, c in terms_I.items()})
+            if np.allclose(HI, 0, atol=1e-12) and I not in gates: continue
+            if I not in gates: okk = False; why = 'no gate for modes %r' % (I,); break
+            U = cirq.unitary(gates[I])
+            if not np.allclose(U, scipy.linalg.expm(1j * HI), atol=1e-8): okk = False; why = 'gate on modes %r differs from exp(i H_I)' % (I,); break
+        for I in gates:
+            if I != () and I not in groups and not np.allclose(cirq.unitary(gates[I]), np.eye(2 ** len(I)), atol=1e-8): okk = False; why = 'spurious gate on modes %r' % (I,)
+        num('gates_from_interaction_operator', okk, 'the returned gates are not exp(i H_I) of the terms on exactly the modes I (%s)' % why, rp, key=(n, it))
+        # and back: the sum of the gate generators is the operator
+        try:
+            back = fs.sum_of_interaction_operator_gate_generators(n, gates)
+            d = of.normal_ordered(of.get_fermion_operator(back)) - Hf
+            num('gate_generators_sum', all(abs(c) < 1e-8 for c in d.terms.values()), 'sum_of_interaction_operator_gate_generators(gates_from(H)) differs from H', rp, key=('b', n, it))
+        except Exception as e:
+            ctx.violation('C14 sum_of_interaction_operator_gate_generators raised %s: %s' % (type(e).__name__, e), rp)
     # ---- bogoliubov_transform: U a+_p U^-1 = sum_q W_pq a+_q (+ W_p,N+q a_q)
     for _ in range(N(25, 200)):
         n = rng.choice([1, 2, 3, 4] if ctx.quick else [1, 2, 3, 4, 5])
